@@ -49,6 +49,10 @@ func (q *QueryRangeController) QueryRange(w http.ResponseWriter, r *http.Request
 		PromError(400, err.Error(), w)
 		return
 	}
+	if int64(step*1000) <= 0 {
+		PromError(400, "step must be a positive duration of at least 1ms", w)
+		return
+	}
 	ch, err := q.QueryRangeService.QueryRange(internalCtx, query, int64(start), int64(end), int64(step*1000),
 		limit, direction == "forward")
 	if err != nil {
